@@ -417,7 +417,15 @@ func (fx *FuncExec) havocReachable(st *State, a Val) {
 			fx.havocReachable(st, v.V)
 		}
 	case FuncV:
-		for _, b := range v.Bindings {
+		for i, b := range v.Bindings {
+			// a captured variable: the callee can always reach what the variable refers to, but it can
+			// assign the variable itself only if the closure body stores to it
+			if bp, ok := b.(PtrV); ok && v.Fn != nil && i < len(v.Fn.FreeVars) && !freeVarAssigned(v.Fn, v.Fn.FreeVars[i], 0) {
+				if cur, ok := st.load(bp); ok {
+					fx.havocReachable(st, cur)
+				}
+				continue
+			}
 			fx.havocReachable(st, b)
 		}
 	}
@@ -433,7 +441,7 @@ func (fx *FuncExec) havocGlobals(st *State) {
 func (fx *FuncExec) havocHeap(st *State) {
 	local := map[ObjID]bool{}
 	for v, r := range st.regs {
-		if a, ok := v.(*ssa.Alloc); ok && !a.Heap {
+		if a, ok := v.(*ssa.Alloc); ok && (!a.Heap || !fx.capturedWritable(a)) {
 			if p, ok := r.(PtrV); ok {
 				local[p.Obj] = true
 			}
@@ -1138,4 +1146,61 @@ func (fx *FuncExec) freshLog(st *State, callee string, comps []Val, empty bool) 
 		st.assume(tLe(intLit(0), lg.Cnt))
 	}
 	return lg
+}
+
+// capturedWritable: can code outside this activation assign the variable? Only a closure that
+// captures it and stores to it can (or an escaping address, which we treat as writable).
+func (fx *FuncExec) capturedWritable(a *ssa.Alloc) bool {
+	if fx.writable == nil {
+		fx.writable = map[*ssa.Alloc]bool{}
+	}
+	if w, ok := fx.writable[a]; ok {
+		return w
+	}
+	w := false
+	for _, ref := range *a.Referrers() {
+		switch r := ref.(type) {
+		case *ssa.Store:
+			if r.Val == ssa.Value(a) {
+				w = true // address stored somewhere
+			}
+		case *ssa.UnOp, *ssa.DebugRef, *ssa.FieldAddr, *ssa.IndexAddr:
+		case *ssa.MakeClosure:
+			fn := r.Fn.(*ssa.Function)
+			for i, b := range r.Bindings {
+				if b == ssa.Value(a) && i < len(fn.FreeVars) && freeVarAssigned(fn, fn.FreeVars[i], 0) {
+					w = true
+				}
+			}
+		default:
+			w = true // passed to a call, converted, ...
+		}
+	}
+	fx.writable[a] = w
+	return w
+}
+
+func freeVarAssigned(fn *ssa.Function, fv *ssa.FreeVar, depth int) bool {
+	if depth > 4 {
+		return true
+	}
+	for _, ref := range *fv.Referrers() {
+		switch r := ref.(type) {
+		case *ssa.Store:
+			if r.Addr == ssa.Value(fv) || r.Val == ssa.Value(fv) {
+				return true
+			}
+		case *ssa.UnOp, *ssa.DebugRef, *ssa.FieldAddr, *ssa.IndexAddr:
+		case *ssa.MakeClosure:
+			inner := r.Fn.(*ssa.Function)
+			for i, b := range r.Bindings {
+				if b == ssa.Value(fv) && i < len(inner.FreeVars) && freeVarAssigned(inner, inner.FreeVars[i], depth+1) {
+					return true
+				}
+			}
+		default:
+			return true
+		}
+	}
+	return false
 }
